@@ -22,6 +22,7 @@ func runC02(r *lib.Run) {
 			opt := lib.DefaultGen()
 			opt.EmptyLeafLists = i%5 == 0
 			opt.OrderedSiblings = i%7 == 0
+			opt.ZeroLenBinary = true
 			if skip(cfg, i) {
 				continue
 			}
